@@ -31,7 +31,8 @@ def facts(ctx):
     exhaustion = bool(re.search(r"source_index\s*(!=|==|<|>|<=|>=)\s*source_bms\.len\(\)|source_bms\.len\(\)\s*(!=|==|<|>|<=|>=)\s*source_index|stream_len|seek\(SeekFrom::End", after_loop))
     cl = common.strip_tests(common.src("sdk/src/claim.rs"))
     vb = common.fn_body(cl, r"fn\s+verify_hash_binding\s*\(", "Claim::verify_hash_binding")
-    for needle, what in [("r.start() == range.start()", "rebase position"), ("range.length().saturating_sub(exclusions[pos].length())", "rebase growth"),
+    for needle, what in [("if svi.update_manifest_label.is_some() {", "re-basing only under an update manifest"),
+                         ("r.start() == range.start()", "rebase position"), ("range.length().saturating_sub(exclusions[pos].length())", "rebase growth"),
                          ("exclusion.start() > start_offset", "rebase shift"), ("if start_offset > 0", "rebase guard")]:
         if needle not in vb:
             raise TieBroken(f"srcfacts: update-manifest re-basing changed ({what}): Model/Bind.v is out of date")
@@ -107,6 +108,9 @@ def apply_mut(f, m):
     if k == "delete":
         p = min(pos, len(f))
         return f[:p] + f[min(len(f), p + m["n"]):]
+    if k == "splice":
+        p = min(pos, len(f))
+        return f[:p] + bytes.fromhex(m["hex"]) + f[min(len(f), p + m["n"]):]
     if k == "append":
         return f + bytes.fromhex(m["hex"])
     if k == "truncate":
@@ -182,7 +186,7 @@ class Asset:
     def protected_equal(self, g):
         """the property's 'protected media content is byte-identical to what was signed' for the mutated file g"""
         f = self.f
-        if self.kind in ("data", "update"):
+        if self.kind == "data":
             if len(g) != len(f):
                 return False
             prev = 0
@@ -191,7 +195,8 @@ class Asset:
                     return False
                 prev = max(prev, e)
             return g[prev:] == f[prev:]
-        # box / bmff: the excluded boxes may change (also in size), everything else must be identical and in order
+        # box / bmff / update manifest (exclusion re-based on the store found in the asset): the excluded region may
+        # change, also in size; everything else must be identical and in order
         if g == f:
             return True
         for s, e in self.excluded:
@@ -199,6 +204,85 @@ class Asset:
             if len(g) >= s + tail and g[:s] == f[:s] and (g[len(g) - tail:] == f[e:] if tail else True):
                 return True
         return False
+
+
+def _ins(pos, b, tag):
+    return {"k": "insert", "pos": pos, "hex": bytes(b).hex(), "tag": tag}
+
+
+def _spl(pos, n, b, tag):
+    return {"k": "splice", "pos": pos, "n": n, "hex": bytes(b).hex(), "tag": tag}
+
+
+def adjacent_mutations(a):
+    """well-formed container structures inserted directly before / after the manifest region, duplicated manifest
+    segments, and a grown / shrunk manifest region (container lengths and checksums kept consistent)"""
+    f, fmt, out = a.f, a.recipe["format"], []
+    junk = b"bytes that were never signed" + bytes(range(16))
+    if fmt == "video/mp4":
+        reg = next(((p, p + sz) for typ, p, sz, head in bmff_top(f) if typ == "uuid" and head == C2PA_UUID), None)
+    else:
+        reg = next(((e["start"], e["start"] + e["len"]) for e in (a.map or []) if e["names"] == ["C2PA"]), None)
+    if not reg:
+        return out
+    s0, e0 = reg
+    if fmt == "image/jpeg":
+        segs, p = [], s0                                  # APP11 segments of the store: marker, length, "JP", En, Z, LBox, TBox
+        while p + 4 <= e0 and f[p] == 0xFF and f[p + 1] == 0xEB:
+            l = struct.unpack(">H", f[p + 2:p + 4])[0]
+            segs.append((p, p + 2 + l)); p += 2 + l
+        if segs:
+            fs, ls = segs[0], segs[-1]
+            en, z = f[fs[0] + 6:fs[0] + 8], struct.unpack(">I", f[ls[0] + 8:ls[0] + 12])[0]
+            box = f[fs[0] + 12:fs[0] + 20]
+
+            def seg(en_, z_, body):
+                pl = b"JP" + en_ + struct.pack(">I", z_) + box + body
+                return b"\xff\xeb" + struct.pack(">H", len(pl) + 2) + pl
+            out.append(_ins(e0, seg(en, z + 1, junk), "jpeg continuation segment after the store"))
+            out.append(_ins(e0, seg(en, z + 1, junk) + seg(en, z + 2, junk), "two continuation segments after the store"))
+            out.append(_ins(e0, seg(en, z + 2, junk), "continuation segment with a skipped sequence number"))
+            out.append(_ins(s0, seg(en, 0, junk), "jpeg segment of the same box instance before the store"))
+            other = struct.pack(">H", (struct.unpack(">H", en)[0] + 1) & 0xFFFF)
+            fake = b"JP" + other + struct.pack(">I", 1) + struct.pack(">I4s", 8 + len(junk), b"free") + junk
+            fakeseg = b"\xff\xeb" + struct.pack(">H", len(fake) + 2) + fake
+            out.append(_ins(e0, fakeseg, "APP11 segment of another box instance after the store"))
+            out.append(_ins(s0, fakeseg, "APP11 segment of another box instance before the store"))
+            out.append(_ins(e0, f[ls[0]:ls[1]], "last store segment duplicated"))
+            out.append(_ins(e0, b"\xff\xfe" + struct.pack(">H", len(junk) + 2) + junk, "COM segment after the store"))
+            l = struct.unpack(">H", f[ls[0] + 2:ls[0] + 4])[0]
+            if l + 8 < 65536:
+                out.append(_spl(ls[0] + 2, ls[1] - ls[0] - 2, struct.pack(">H", l + 8) + f[ls[0] + 4:ls[1]] + junk[:8], "last store segment grown by 8 bytes"))
+            out.append(_spl(ls[0] + 2, ls[1] - ls[0] - 2, struct.pack(">H", l - 1) + f[ls[0] + 4:ls[1] - 1], "last store segment shrunk by 1 byte"))
+    elif fmt == "image/png":
+        ln = struct.unpack(">I", f[s0:s0 + 4])[0]
+        typ, data = f[s0 + 4:s0 + 8], f[s0 + 8:s0 + 8 + ln]
+        out.append(_ins(e0, _chunk(typ, junk), "second manifest chunk after the store chunk"))
+        out.append(_ins(s0, _chunk(typ, junk), "second manifest chunk before the store chunk"))
+        out.append(_ins(e0, f[s0:e0], "store chunk duplicated"))
+        out.append(_ins(e0, _chunk(b"tEXt", b"Comment\0" + junk), "tEXt chunk after the store chunk"))
+        out.append(_ins(s0, _chunk(b"tEXt", b"Comment\0" + junk), "tEXt chunk before the store chunk"))
+        out.append(_spl(s0, e0 - s0, _chunk(typ, data + junk[:8]), "store chunk grown by 8 bytes"))
+        out.append(_spl(s0, e0 - s0, _chunk(typ, data[:-1]), "store chunk shrunk by 1 byte"))
+    elif fmt == "image/gif":
+        hdr = f[s0:s0 + 14]                                # 21 FF 0B + 11 bytes application identifier / auth code
+        blk = hdr + bytes([len(junk)]) + junk + b"\0"
+        out.append(_ins(e0, blk, "second manifest application extension after the store block"))
+        out.append(_ins(s0, blk, "second manifest application extension before the store block"))
+        out.append(_ins(e0, f[s0:e0], "store block duplicated"))
+        out.append(_ins(e0, b"\x21\xfe" + bytes([len(junk)]) + junk + b"\0", "comment extension after the store block"))
+        out.append(_ins(s0, b"\x21\xfe" + bytes([len(junk)]) + junk + b"\0", "comment extension before the store block"))
+        if f[e0 - 1] == 0:
+            out.append(_ins(e0 - 1, bytes([8]) + junk[:8], "store block grown by one 8-byte sub-block"))
+    elif fmt == "video/mp4":
+        free = struct.pack(">I4s", 8 + len(junk), b"free") + junk
+        out.append(_ins(e0, free, "free box after the manifest box"))
+        out.append(_ins(s0, free, "free box before the manifest box"))
+        out.append(_ins(e0, f[s0:e0], "manifest box duplicated"))
+        sz = struct.unpack(">I", f[s0:s0 + 4])[0]
+        if sz == e0 - s0:
+            out.append(_spl(s0, e0 - s0, struct.pack(">I", sz + 8) + f[s0 + 4:e0] + junk[:8], "manifest box grown by 8 bytes"))
+    return out
 
 
 def gen_mutations(a, rng, quick):
@@ -212,7 +296,7 @@ def gen_mutations(a, rng, quick):
             if f[p] != 0:
                 muts.append({"k": "set", "pos": p, "val": 0})
     bounds = a.bounds
-    nb = 16 if quick else 200
+    nb = 12 if quick else 200
     if not a.tiny and len(bounds) > nb:
         keep = set(bounds[:4] + bounds[-3:] + [x for s, e in a.excluded for x in (s, e)])
         rest = [b for b in bounds if b not in keep]
@@ -224,7 +308,7 @@ def gen_mutations(a, rng, quick):
         for b in bounds:
             for d in (-2, -1, 0, 1, 2):
                 at(b + d)
-        for _ in range((60 if a.tiny else 40) if quick else 1000):
+        for _ in range((60 if a.tiny else 25) if quick else 1000):
             at(rng.randrange(n))
     ib = bounds if len(bounds) <= 10 or not quick else sorted(rng.sample(bounds, 10))
     for b in ib:
@@ -245,6 +329,7 @@ def gen_mutations(a, rng, quick):
         muts.append({"k": "append", "hex": f[e["start"]:e["start"] + e["len"]].hex()[:4096]})
     for k in (1, 12, n - a.last_box_end if n > a.last_box_end else 3):
         muts.append({"k": "truncate", "n": k})
+    muts.extend(adjacent_mutations(a))
     muts.append({"k": "none"})
     seen, out = set(), []
     for m in muts:
@@ -275,6 +360,9 @@ def coq_mut(m, f):
         return f"(m_ins base {min(pos, len(f))} {coq_bytes(bytes.fromhex(m['hex']))})"
     if k == "delete":
         return f"(m_del base {min(pos, len(f))} {m['n']})"
+    if k == "splice":
+        p = min(pos, len(f))
+        return f"(m_ins (m_del base {p} {min(m['n'], len(f) - p)}) {p} {coq_bytes(bytes.fromhex(m['hex']))})"
     if k == "append":
         return f"(base ++ {coq_bytes(bytes.fromhex(m['hex']))})"
     if k == "truncate":
@@ -340,7 +428,7 @@ def model_eval(ctx, a, cases, impl):
             src = coq_list([f"SB {name_id(e['names'][0])} {e['start']} {e['len']}" for e in mp])
             exprs.append(f"verify_boxes hid {MAXBUF} true {coq_mut(c['m'], f)} sigB {src}")
             idx.append(c)
-    res = common.coq_eval("C01_" + a.recipe["name"].replace("-", "_"), prelude, exprs, shard_size=200)
+    res = common.coq_eval("C01_" + a.recipe["name"].replace("-", "_"), prelude, exprs, shard_size=60 if ctx.quick() else 200)
     n = 0
     for c, mo in zip(idx, res):
         d = impl[c["id"]].get("direct")
@@ -417,7 +505,10 @@ def run(ctx):
         rc = [ctx.replay["case"]] if "case" in ctx.replay else [d["case"] for d in ctx.replay.get("disagreements", [])]
         names = {c["asset"]["name"] for c in rc}
         recipes = [r for r in recipes if r["name"] in names]
+    import time as _t
+    t00 = _t.time()
     assets = prepare(recipes, fresh=not ctx.replay)        # a replay uses the cached signed asset of the failing run
+    common.log(f"[C01] prepare: {len(assets)} assets in {_t.time() - t00:.1f}s (since check start {_t.time() - ctx.t0:.1f}s)")
     amap = {a.recipe["name"]: a for a in assets}
     cases = []
     if ctx.replay:
@@ -442,6 +533,7 @@ def run(ctx):
     impl = common.run_harness("c01", cases, jobs=16)
     common.log(f"[C01] harness: {len(cases)} cases in {_t.time() - t0:.1f}s")
     stats = {"panic": 0, "read_error": 0, "state": {}, "noop": 0, "accepted_excluded_only": 0, "per_asset": {}, "kinds": {}}
+    t0 = _t.time()
     for c in cases:
         a = amap[c["asset"]["name"]]
         stats["per_asset"][a.recipe["name"]] = stats["per_asset"].get(a.recipe["name"], 0) + 1
@@ -449,6 +541,7 @@ def run(ctx):
         oracle(ctx, a, c, impl[c["id"]], stats)
     if os.environ.get("VERIF_DEBUG"):
         json.dump(ctx.violations, open(os.path.join(common.CASES, "C01_violations.json"), "w"), default=str)
+    common.log(f"[C01] oracle: {_t.time() - t0:.1f}s")
     # direct verifier vs e2e: whenever the read reports a hard-binding verdict it is the direct one
     hb = {"data": "assertion.dataHash", "box": "assertion.boxesHash", "bmff": "assertion.bmffHash", "update": "assertion.dataHash"}
     cross = 0
@@ -465,17 +558,20 @@ def run(ctx):
     # model correspondence on the tiny assets
     modelled = 0
     t0 = _t.time()
-    for a in assets:
-        if a.tiny and a.kind in ("data", "box"):
-            mine = [c for c in cases if c["asset"]["name"] == a.recipe["name"]]
-            modelled += model_eval(ctx, a, mine, impl)
+    from concurrent.futures import ThreadPoolExecutor
+    todo = [a for a in assets if a.tiny and a.kind in ("data", "box")]
+    with ThreadPoolExecutor(max_workers=max(1, len(todo))) as ex:          # coqc shards of all assets run side by side
+        futs = [ex.submit(model_eval, ctx, a, [c for c in cases if c["asset"]["name"] == a.recipe["name"]], impl) for a in todo]
+        for fu in futs:
+            modelled += fu.result()
     common.log(f"[C01] model: {modelled} evaluations in {_t.time() - t0:.1f}s")
     distinct = len({(c["asset"]["name"], json.dumps(c["m"], sort_keys=True)) for c in cases if c["m"]["k"] != "none"})
     ctx.coverage.update({
         "evaluations": len(cases), "distinct_nontrivial": distinct,
         "rule": "per signed asset (3 model-built tiny assets + 4 fixtures, x data/box or bmff binding, + 2 update manifests over a data hash): every structural boundary +-2 and "
                 "seeded positions x {flip bit 0, flip bit 7, set 0} (tiny assets: every position in the thorough tier), insert/delete/duplicate at "
-                "boundaries and inside the exclusion, appends (1..64 bytes, a copy of the last box), truncations; non-trivial = changes the file; "
+                "boundaries and inside the exclusion, well-formed container structures (APP11 continuation / foreign-instance / COM segments, PNG chunks, "
+                "GIF extension blocks, BMFF free box, duplicated store segments) directly before and after the manifest region and a grown/shrunk manifest region, appends (1..64 bytes, a copy of the last box), truncations; non-trivial = changes the file; "
                 "distinct by (asset, mutation)",
         "distribution": stats, "model_vs_direct_verifier": modelled, "direct_vs_e2e_verdicts": cross,
         "assets": {a.recipe["name"]: {"len": len(a.f), "excluded": a.excluded[:4], "boundaries": len(a.bounds)} for a in assets},
